@@ -748,13 +748,19 @@ Section Inst.
 End Inst.
 
 (** The logging handler. *)
-Lemma log_fold : forall fs b lg, fs <> [] -> fold_left log_handle fs (b, lg) = (true, lg ++ fs).
+Definition log_phase_step (b : bool) (f : frame) : bool :=
+  match f with FContact c => b || contact_ok c | FMsg _ => b end.
+
+Lemma log_fold : forall fs b lg,
+  fold_left log_handle fs (b, lg) = (fold_left log_phase_step fs b, lg ++ fs).
 Proof.
-  induction fs as [|f fs IH]; intros b lg NE; [congruence|].
-  cbn [fold_left]. unfold log_handle at 2. cbn [snd].
-  destruct fs as [|g fs]; [reflexivity|].
-  rewrite IH by discriminate. rewrite <- app_assoc. reflexivity.
+  induction fs as [|f fs IH]; intros b lg; cbn [fold_left].
+  - rewrite app_nil_r. reflexivity.
+  - unfold log_handle at 2. cbn [fst snd]. rewrite IH. rewrite <- app_assoc. reflexivity.
 Qed.
+
+Lemma log_phase_true : forall fs, fold_left log_phase_step fs true = true.
+Proof. induction fs as [|f fs IH]; [reflexivity|]. cbn [fold_left]. destruct f; cbn [log_phase_step orb]; exact IH. Qed.
 
 Lemma log_consistent_msgs : forall ms lg,
   Forall wf_msg ms -> rx_consistent log_state log_phase log_handle (true, lg) (map FMsg ms).
@@ -764,21 +770,22 @@ Proof.
 Qed.
 
 Lemma log_consistent : forall c ms,
-  wf_contact c -> Forall wf_msg ms ->
+  wf_contact c -> contact_ok c = true -> Forall wf_msg ms ->
   rx_consistent log_state log_phase log_handle (false, []) (FContact c :: map FMsg ms).
 Proof.
-  intros c ms Wc Wm. cbn [rx_consistent]. split; [split; [exact Wc|reflexivity]|].
+  intros c ms Wc Ok Wm. cbn [rx_consistent]. split; [split; [exact Wc|reflexivity]|].
+  unfold log_handle. cbn [fst snd orb app]. rewrite Ok.
   apply log_consistent_msgs. exact Wm.
 Qed.
 
 Theorem rx_log_stream : forall c ms,
-  wf_contact c -> Forall wf_msg ms ->
+  wf_contact c -> contact_ok c = true -> Forall wf_msg ms ->
   rx_log_recv rx_init (concat (map encode_frame (FContact c :: map FMsg ms)))
   = ((true, FContact c :: map FMsg ms), []).
 Proof.
-  intros c ms Wc Wm.
-  pose proof (rx_stream log_state log_phase log_handle _ _ (log_consistent c ms Wc Wm)) as R.
-  rewrite log_fold in R by discriminate. exact R.
+  intros c ms Wc Ok Wm.
+  pose proof (rx_stream log_state log_phase log_handle _ _ (log_consistent c ms Wc Ok Wm)) as R.
+  rewrite log_fold in R. cbn [fold_left log_phase_step orb] in R. rewrite Ok, log_phase_true in R. exact R.
 Qed.
 
 Lemma rx_consistent_app St phase handle : forall fs1 fs2 s,
@@ -792,27 +799,29 @@ Qed.
     the frames whose final octet has arrived have been acted on, in order, and
     the octets of the next, incomplete one are kept. *)
 Theorem rx_log_any_cut : forall c ms fs1 f fs2 q q' chunks,
-  wf_contact c -> Forall wf_msg ms ->
+  wf_contact c -> contact_ok c = true -> Forall wf_msg ms ->
   FContact c :: map FMsg ms = fs1 ++ f :: fs2 ->
   encode_frame f = q ++ q' -> q' <> [] ->
   concat chunks = concat (map encode_frame fs1) ++ q ->
   fold_left rx_log_recv chunks rx_init
   = ((match fs1 with [] => false | _ => true end, fs1), q).
 Proof.
-  intros c ms fs1 f fs2 q q' chunks Wc Wm EF E NE EC.
-  pose proof (log_consistent c ms Wc Wm) as C. rewrite EF in C.
+  intros c ms fs1 f fs2 q q' chunks Wc Ok Wm EF E NE EC.
+  pose proof (log_consistent c ms Wc Ok Wm) as C. rewrite EF in C.
   pose proof (rx_stream_any_cut log_state log_phase log_handle fs1 f fs2 (false, []) q q' chunks C E NE EC) as R.
-  destruct fs1 as [|g fs1]; [exact R|]. rewrite log_fold in R by discriminate. exact R.
+  destruct fs1 as [|g fs1]; [exact R|]. rewrite log_fold in R.
+  cbn [app] in EF. injection EF as <- _.
+  cbn [fold_left log_phase_step orb] in R. rewrite Ok, log_phase_true in R. exact R.
 Qed.
 
 Theorem rx_log_any_cut_all : forall c ms chunks,
-  wf_contact c -> Forall wf_msg ms ->
+  wf_contact c -> contact_ok c = true -> Forall wf_msg ms ->
   concat chunks = concat (map encode_frame (FContact c :: map FMsg ms)) ->
   fold_left rx_log_recv chunks rx_init = ((true, FContact c :: map FMsg ms), []).
 Proof.
-  intros c ms chunks Wc Wm EC.
-  pose proof (rx_stream_any_cut_all log_state log_phase log_handle _ (false, []) chunks (log_consistent c ms Wc Wm) EC) as R.
-  rewrite log_fold in R by discriminate. exact R.
+  intros c ms chunks Wc Ok Wm EC.
+  pose proof (rx_stream_any_cut_all log_state log_phase log_handle _ (false, []) chunks (log_consistent c ms Wc Ok Wm) EC) as R.
+  rewrite log_fold in R. cbn [fold_left log_phase_step orb] in R. rewrite Ok, log_phase_true in R. exact R.
 Qed.
 
 (** The log only grows: frames already acted on are never revised. *)
@@ -825,8 +834,10 @@ Proof.
     - exists []. rewrite app_nil_r. reflexivity.
     - destruct buf as [|x buf]; [exists []; rewrite app_nil_r; reflexivity|].
       destruct (parse_frame (log_phase (b, lg)) (x :: buf)) as [[f r]|]; [|exists []; rewrite app_nil_r; reflexivity].
-      change (log_handle (b, lg) f) with (true, lg ++ [f]).
-      destruct (IH true (lg ++ [f]) r) as [more E]. exists (f :: more). rewrite E, <- app_assoc. reflexivity. }
+      change (log_handle (b, lg) f)
+        with (match f with FContact c => b || contact_ok c | FMsg _ => b end, lg ++ [f]).
+      destruct (IH (match f with FContact c => b || contact_ok c | FMsg _ => b end) (lg ++ [f]) r) as [more E].
+      exists (f :: more). rewrite E, <- app_assoc. reflexivity. }
   intros [[b lg] buf] c. unfold rx_log_recv, rx_recv. cbn [fst snd]. apply G.
 Qed.
 
